@@ -18,3 +18,6 @@
   (ite (= a 6) (oid7 1 2 840 10045 4 3 3) (oid7 1 2 840 10045 4 3 4)))))))))
 (declare-fun builderOf (Any) Any)     ; result of ExtensionConfig.Builder() for an extension configuration
 (declare-fun builderErr (Any) Any)
+(declare-fun rawFull (Bytes) Bytes)          ; the first TLV of an input, as asn1.Unmarshal stores it in RawValue.FullBytes
+(declare-fun isTlv (Bytes) Bool)             ; the input starts with a well-formed TLV
+(assert (forall ((d Deep)) (! (and (isTlv (der d)) (= (rawFull (der d)) (der d))) :pattern ((der d)))))
